@@ -1,5 +1,5 @@
 (** * C11 -- measure, if, reset and barrier *)
-From QV Require Import Interp Sym Reg ScalarR RegP C05T C07T2 C11T C11T2 C17T2 C11T3.
+From QV Require Import Interp Sym Reg ScalarR RegP C05T C07T2 C11T C11T2 C17T2 C11T3 C11T4.
 
 Theorem C11_blocks : C11_blocks_stmt.
 Proof. exact C11_blocks_proof. Qed.
@@ -8,6 +8,10 @@ Print Assumptions C11_blocks.
 Theorem C11_if : C11_if_stmt.
 Proof. exact C11_if_proof. Qed.
 Print Assumptions C11_if.
+
+Theorem C11_if_unfit : C11_if_unfit_stmt.
+Proof. exact C11_if_unfit_proof. Qed.
+Print Assumptions C11_if_unfit.
 
 Theorem C11_measure : C11_measure_stmt.
 Proof. exact C11_measure_proof. Qed.
